@@ -78,7 +78,10 @@ def family(rng):
     sensitive = {a: rng.choice([10, 100]) for a in sens}
     route = rng.choice(["yaml", "dict"])
     hosts = {}
-    for a in addrs:
+    order = list(addrs)
+    if rng.random() < 0.4:
+        rng.shuffle(order)      # host_configurations in arbitrary order
+    for a in order:
         hosts[a] = dict(os="linux", services=list(srvs),
                         processes=list(procs),
                         value=0.0 if a in sensitive else
@@ -273,6 +276,31 @@ def case(acc, sp, route, cap, label):
             wit)
     if abs(best - bound) < 1e-6:
         acc.count("bound_attained_exactly")
+    # ---- a later episode on the same environment object: play the best
+    # episode with step(), reset, and look again (the exploration above is a
+    # function of the reset state, so it is only repeated if that differs)
+    first = subj.current().tensor.tobytes()
+    st = subj.current()
+    while True:
+        _v, _c, i = ex.solve(st)
+        if i is None:
+            break
+        T = subj.step(i, ex.seeds[i])
+        st = subj.current()
+        if T.raised:
+            break
+    subj.reset()
+    acc.count("second_episodes_started")
+    if subj.current().tensor.tobytes() != first:
+        ex2 = Explorer(subj, cap)
+        best2, _m, _i = ex2.solve(subj.current())
+        if not ex2.over and best2 != NEG and best2 > bound + 1e-6:
+            acc.violation("episode_exceeds_advertised_bound",
+                          "bound_exceeded:second_episode_after_reset",
+                          {"advertised_bound": bound,
+                           "best_goal_reaching_episode_reward": best2,
+                           "episode": ex2.best_episode(subj.current())[:30]},
+                          wit)
     # ---- hop clause on the scenario with every firewall opened
     spo = open_firewalls(sp)
     so = Subject(spo, route=route, fully_obs=True)
